@@ -102,6 +102,81 @@ def _apply_op(zs, op):
         return FAIL                    # some impossible dates); its type is not part of the API
 
 
+# ---------------------------------------------------------------------------------------------------------------
+# Pristine reference process. A "fresh" instance built in a process that has already executed thousands of histories
+# is only as fresh as the module- and class-level state allows: a cache that lives on the class and that the first
+# writer wins would poison the long-lived and the fresh instance alike, for the rest of the process. So every run
+# also obtains the fresh answers from a process in which NOTHING has run before: a zygote (a separate interpreter that
+# has only imported the modules) forks one short-lived child per request; the child answers each op on a newly
+# built instance and exits.
+
+_zygote = None
+
+
+def _zygote_main():
+    import pickle
+    import struct
+    _load()
+    inp, out = sys.stdin.buffer, sys.stdout.buffer
+    while True:
+        hdr = inp.read(4)
+        if len(hdr) < 4:
+            return
+        (n,) = struct.unpack('<I', hdr)
+        zone, opts, ops = pickle.loads(inp.read(n))
+        r, w = os.pipe()
+        pid = os.fork()
+        if pid == 0:
+            os.close(r)
+            try:
+                res = [apply_op(make(zone, opts), op) for op in ops]
+            except BaseException:
+                res = None
+            with os.fdopen(w, 'wb') as f:
+                pickle.dump(res, f)
+            os._exit(0)
+        os.close(w)
+        with os.fdopen(r, 'rb') as f:
+            data = f.read()
+        os.waitpid(pid, 0)
+        out.write(struct.pack('<I', len(data)) + data)
+        out.flush()
+
+
+def pristine_request(zone, opts, ops):
+    """Sends the request; the answer is collected later with pristine_response() so that both sides work in parallel."""
+    global _zygote
+    import pickle
+    import struct
+    import subprocess
+    if os.environ.get('PYSIM_NO_ZYGOTE'):
+        return False
+    try:
+        if _zygote is None or _zygote.poll() is not None:
+            env = dict(os.environ)
+            env['PYTHONHASHSEED'] = env.get('PYTHONHASHSEED', '0')
+            _zygote = subprocess.Popen([sys.executable, os.path.abspath(__file__), 'zygote'], stdin=subprocess.PIPE,
+                                       stdout=subprocess.PIPE, stderr=subprocess.DEVNULL, env=env)
+        req = pickle.dumps((zone, opts, ops))
+        _zygote.stdin.write(struct.pack('<I', len(req)) + req)
+        _zygote.stdin.flush()
+        return True
+    except Exception:
+        return False
+
+
+def pristine_response():
+    """Fresh answers for each op from a process with no history; None if the helper failed."""
+    import pickle
+    import struct
+    try:
+        hdr = _zygote.stdout.read(4)
+        (n,) = struct.unpack('<I', hdr)
+        return pickle.loads(_zygote.stdout.read(n))
+    except Exception:
+        return None
+
+
 def parse(text):
     lines = [l.strip() for l in text.split('\n') if l.strip()]
     zone, opts, ops = None, {'vm': 14, 'inplace': 1, 'opt': 1}, []
@@ -134,9 +209,28 @@ def execute(text, cov=None):
         return (False, '', '', -1)
     live = make(zone, opts)
     prev_year, prev_ok = None, None
+    names = L['names']
+    decoy_zone = names[(names.index(zone) + 97) % len(names)]
+    fresh_seen = {}
+    asked = pristine_request(zone, opts, ops)
+    wants = []
+    result = None
     for i, op in enumerate(ops):
         got = apply_op(live, op)
+        # State shared between instances (a class attribute, a module-level memo, mutated shared tables) would be
+        # seen alike by the long-lived instance and by a fresh one asked right after it. So an unrelated instance
+        # (another zone, another year) is exercised first, and a fresh instance must also agree with what a fresh
+        # instance answered to the same op earlier in this run.
+        apply_op(make(decoy_zone, opts), ['init', str(2000 + (i * 7 + len(ops)) % 50)])
         want = apply_op(make(zone, opts), op)
+        key = tuple(op)
+        if key in fresh_seen and fresh_seen[key] != want:
+            result = (True, 'c08-py-fresh-drift',
+                    'a fresh ZoneSpecifier(%s) answers %s to %s now but answered %s earlier in this run: state shared '
+                    'between instances' % (zone, _short(want), ' '.join(op), _short(fresh_seen[key])), i)
+            break
+        fresh_seen[key] = want
+        wants.append(want)
         if cov is not None:
             cov['ops'] = cov.get('ops', 0) + 1
             year = _op_year(op)
@@ -153,10 +247,23 @@ def execute(text, cov=None):
                 cov['fresh_failures'] = cov.get('fresh_failures', 0) + 1
             prev_year, prev_ok = (live.year, want != FAIL) if op[0] != 'bufsz' else (live.year, True)
         if got != want:
-            return (True, 'c08-py-history-%s' % op[0],
-                    'long-lived ZoneSpecifier(%s) answered %s to %s; a fresh instance answers %s'
-                    % (zone, _short(got), ' '.join(op), _short(want)), i)
-    return (False, '', '', -1)
+            result = (True, 'c08-py-history-%s' % op[0],
+                      'long-lived ZoneSpecifier(%s) answered %s to %s; a fresh instance answers %s'
+                      % (zone, _short(got), ' '.join(op), _short(want)), i)
+            break
+    pristine = pristine_response() if asked else None
+    if cov is not None:
+        cov['pristine_process_runs'] = cov.get('pristine_process_runs', 0) + (1 if pristine is not None else 0)
+    if pristine is not None:
+        for i, want in enumerate(wants):
+            if result is not None and i >= result[3]:
+                break
+            if i < len(pristine) and pristine[i] != want:
+                return (True, 'c08-py-fresh-drift',
+                        'a fresh ZoneSpecifier(%s) in this process answers %s to %s; a fresh one in a process where nothing '
+                        'has run before answers %s: state shared between instances'
+                        % (zone, _short(want), ' '.join(ops[i]), _short(pristine[i])), i)
+    return result if result is not None else (False, '', '', -1)
 
 
 def _short(x):
@@ -255,5 +362,7 @@ if __name__ == '__main__':
     if len(sys.argv) >= 4 and sys.argv[1] == 'digest':
         r = run_range((int(sys.argv[2]), 0, int(sys.argv[3])))
         print(r['digest'])
+    elif len(sys.argv) >= 2 and sys.argv[1] == 'zygote':
+        _zygote_main()
     elif len(sys.argv) >= 3 and sys.argv[1] == 'gen':
         sys.stdout.write(generate(int(sys.argv[2])))
